@@ -264,6 +264,52 @@ func runC18(rc *RunCtx) {
 			sock.Close()
 		})
 	}
+	// A UDP bystander: one association with a reply on its way while another
+	// datagram of the same client cannot be forwarded (destination port 0: the
+	// send fails). The failure of one datagram must not cost the other its reply.
+	var uby struct {
+		run, done, got bool
+	}
+	if w.UDPWriteErr == 0 && w.UDPSockErr == 0 && w.UDPReadErr == 0 && usrv.Timeout > time.Second {
+		uby.run = true
+		slow, _ := w.BindUDP(&net.UDPAddr{IP: tgtIP, Port: 7002})
+		simrt.GoDaemon("c18-udp-slow-target", func() {
+			buf := make([]byte, 2048)
+			for {
+				n, from, err := slow.ReadFromUDP(buf)
+				if err != nil {
+					return
+				}
+				p := append([]byte(nil), buf[:n]...)
+				simrt.After(20*time.Millisecond, func() { simrt.S_spawn(func() { slow.WriteToUDP(p, from) }) })
+			}
+		})
+		k := keys[0]
+		simrt.GoNamed("c18-udp-bystander", func() {
+			defer func() { uby.done = true }()
+			cs, err := w.BindUDP(&net.UDPAddr{IP: net.IPv4(198, 18, 42, 7).To4(), Port: 38200})
+			if err != nil {
+				return
+			}
+			defer cs.Close()
+			to := &net.UDPAddr{IP: proxyIP, Port: 9000}
+			cs.WriteToUDP(packUDP(k, append(socksAddr(fmt.Sprintf("%s:7002", tgtIP)), []byte("udp-bystander")...)), to)
+			simrt.Sleep(5 * time.Millisecond)
+			cs.WriteToUDP(packUDP(k, append(socksAddr(fmt.Sprintf("%s:0", tgtIP)), []byte("undeliverable")...)), to)
+			cs.SetReadDeadline(simrt.NowNoTick().Add(200 * time.Millisecond))
+			buf := make([]byte, 2048)
+			for {
+				n, _, err := cs.ReadFromUDP(buf)
+				if err != nil {
+					return
+				}
+				if pl, err := shadowsocks.Unpack(nil, buf[:n], k.EK); err == nil && strings.HasSuffix(string(pl), "udp-bystander") {
+					uby.got = true
+					return
+				}
+			}
+		})
+	}
 	// A bystander: a well-behaved relay that runs while the adversarial clients do
 	// their worst. "A failure while handling one connection never affects others":
 	// once it is being served (first echo received) it must run to completion,
@@ -334,6 +380,15 @@ func runC18(rc *RunCtx) {
 		rc.Failf("bystander-relay-broken", "a well-behaved relay running next to the adversarial clients was being served and then broke (echoes %q)", by.got)
 	} else if by.served {
 		rc.Probe("bystander_relay_completed")
+	}
+	if uby.run && !earlyStop {
+		if !uby.done {
+			rc.Failf("udp-bystander-stalled", "the UDP bystander never finished")
+		} else if !uby.got {
+			rc.Failf("udp-bystander-reply-lost", "a datagram that could not be forwarded (destination port 0) cost another datagram of the same client its reply")
+		} else {
+			rc.Probe("udp_bystander_reply_delivered")
+		}
 	}
 	rc.Phase = "canary"
 	key := keys[0]
